@@ -273,10 +273,6 @@ class PrecipitateModel (PrecipitateBase):
         self._setupAspectRatio()
 
         #Setup precipitation data for n = 0
-        Y = self.pData.copySlice(self.pData.n)
-        Y.time = np.array([self.pData.time[self.pData.n]])
-        Y.temperature = np.array([self.temperatureParameters(Y.time[0])])
-
         #Setup interfacial composition
         if self.numberOfElements == 1:
             self.pData.xEqAlpha[self.pData.n], self.pData.xEqBeta[self.pData.n] = self._createLookupBinary(self.pData.temperature[self.pData.n])
@@ -292,6 +288,11 @@ class PrecipitateModel (PrecipitateBase):
                     _, _, _, c_eq_alpha, c_eq_beta = growth_result
                     self.pData.xEqAlpha[self.pData.n,p] = c_eq_alpha
                     self.pData.xEqBeta[self.pData.n,p] = c_eq_beta
+
+        #Copy the first record after the equilibrium compositions are stored in it (the second impingement expression for binary systems reads them)
+        Y = self.pData.copySlice(self.pData.n)
+        Y.time = np.array([self.pData.time[self.pData.n]])
+        Y.temperature = np.array([self.temperatureParameters(Y.time[0])])
 
         x = [self.PBM[p].PSD for p in range(len(self.phases))]
         Y = self._calcNucleationRate(self.pData.time[self.pData.n], x, Y)
